@@ -85,7 +85,7 @@ pub struct GlobalVariable {
 pub struct ListDeclaration {
     pub name: String,
     /// All items in order: (item_name, value_number, initially_selected)
-    pub items: Vec<(String, u32, bool)>,
+    pub items: Vec<(String, i32, bool)>,
 }
 
 #[derive(Debug, Clone, PartialEq)]
